@@ -317,6 +317,22 @@ func (c *Ctx) loadKnown() {
 		os.Exit(2)
 	}
 	c.known = f.Findings
+	// Per-check fragments (merged into known_findings.json before release).
+	more, _ := filepath.Glob(filepath.Join(VerifDir(), "known_findings.d", "*.json"))
+	for _, p := range more {
+		b, err := os.ReadFile(p)
+		if err != nil {
+			continue
+		}
+		var g struct {
+			Findings []KnownFinding `json:"findings"`
+		}
+		if err := json.Unmarshal(b, &g); err != nil {
+			fmt.Println("vx: cannot parse", p, err)
+			os.Exit(2)
+		}
+		c.known = append(c.known, g.Findings...)
+	}
 }
 
 func (c *Ctx) matchKnown(v Violation) *KnownFinding {
